@@ -230,7 +230,7 @@ Proof. constructor; try reflexivity. intros e []. Qed.
 
 Lemma qcheck_sim s ss q : R s ss -> qcheck s q = true -> qcheck5 ss q = true.
 Proof.
-  intros [H1 H2 H3 H4 H5]. destruct q as [e r|l|e l|i r]; cbn [qcheck qcheck5]; unfold exists5, towns.
+  intros [H1 H2 H3 H4 H5]. destruct q as [e r|l|e l|i r|e ty r|e ty r|ty l]; cbn [qcheck qcheck5]; unfold exists5, towns.
   - rewrite H1, H2. intros ->. apply orb_true_r.
   - rewrite H1, H2. intros P. apply zperm_b_sound in P. apply andb_true_iff. split.
     + apply forallb_forall. intros x Hx.
@@ -246,6 +246,9 @@ Proof.
       apply zmem_In in I. rewrite I. apply orb_true_r.
   - now rewrite H1.
   - reflexivity.
+  - now rewrite H1.
+  - now rewrite H1.
+  - now rewrite H1.
 Qed.
 
 Lemma towns_fold_tset (f : Z -> Z) e comps : forall t x,
@@ -440,9 +443,12 @@ Proof.
   - now apply sim_clear.
   - destruct HR as [H1 H2 H3 H4 H5]. cbn [step_op step5_op]. destruct v.
     + destruct (o_exc ob =? 3).
-      * destruct (selfl _); [|discriminate]. destruct (release_raise _ _); [|discriminate].
+      * destruct (selfl _); [|discriminate]. destruct (release_raise _ _ _); [|discriminate].
         intros [= <-]. eexists; split; [reflexivity|]. now constructor.
-      * destruct (_ && _); [|discriminate]. intros [= <-]. eexists; split; [reflexivity|].
+      * destruct (o_exc ob =? 4).
+        { destruct (selfl _); [|discriminate]. destruct (release_raise _ _ _); [|discriminate].
+          intros [= <-]. eexists; split; [reflexivity|]. now constructor. }
+        destruct (_ && _); [|discriminate]. intros [= <-]. eexists; split; [reflexivity|].
         now constructor.
     + destruct (_ && _); [|discriminate]. intros [= <-]. eexists; split; [reflexivity|].
       now constructor.
@@ -601,4 +607,24 @@ Proof.
   - now injection H as <-.
   - now injection H as <-.
   - now injection H as <-.
+Qed.
+
+(* (i) continued: has_component / get_component / get answer after a deferred
+   delete exactly as before it (the ownership table is untouched by the mark) *)
+Lemma deferred_delete_keeps_components p s e ob s' :
+  step5 p s (Delete e false) ob = Some s' ->
+  att s' = att s /\
+  (forall e' ty r, In (QHas e' ty r) (o_qs ob) ->
+     r = match tget (att s) e' ty with Some _ => true | None => false end) /\
+  (forall e' ty r, In (QGetC e' ty r) (o_qs ob) -> r = tget (att s) e' ty) /\
+  (forall ty l, In (QGet ty l) (o_qs ob) -> Permutation l (tall (att s) ty)).
+Proof.
+  intros H. apply step5_qs in H. destruct H as [H Q]. cbn [step5_op] in H.
+  destruct (o_exc ob =? 0); [|discriminate]. injection H as <-. cbn [att upd] in *.
+  split; [reflexivity|]. split; [|split].
+  - intros e' ty r Hr. specialize (Q _ Hr). cbn in Q. now apply eqb_prop in Q.
+  - intros e' ty r Hr. specialize (Q _ Hr). cbn in Q.
+    destruct r as [x|], (tget (att s) e' ty) as [y|]; cbn in Q; try discriminate; auto.
+    apply Z.eqb_eq in Q. now subst.
+  - intros ty l Hl. specialize (Q _ Hl). cbn in Q. eapply perm_b_sound; [apply pz_eqb_spec|exact Q].
 Qed.
